@@ -89,7 +89,10 @@ Item(it, id) ==
     [] it.k = "IE" -><<[k |-> "if", c |-> Cond, t |-> Block(Items(it.a, 1, id * 8 + 5)), e |-> Block(Items(it.b, 1, id * 8 + 6))]>>
 Program(body) ==
   [globals |-> <<[n |-> "g", t |-> TyInt]>>, structs |-> <<>>,
-   funcs |-> <<[name |-> "f", exported |-> TRUE, params |-> <<[n |-> "p", t |-> TyInt]>>, ret |-> TyInt,
+   funcs |-> <<\* an earlier function whose locals have the names of f's parameter and locals: scopes are per function
+               [name |-> "h", exported |-> FALSE, params |-> <<[n |-> "q", t |-> TyInt]>>, ret |-> TyInt,
+                body |-> Block(<<Decl("p", Bop("+", V("q"), Lit(1))), Decl("x", Lit(3)), Decl("t", Lit(4)), [k |-> "ret", e |-> Bop("+", V("p"), Bop("+", V("x"), V("t")))]>>)],
+               [name |-> "f", exported |-> TRUE, params |-> <<[n |-> "p", t |-> TyInt]>>, ret |-> TyInt,
                 body |-> Block(<<Decl("t", V("p"))>> \o Items(body, 1, 1) \o <<[k |-> "ret", e |-> V("t")]>>)]>>]
 
 CaseIds == {[body |-> b, prog |-> Program(b)] : b \in Bodies}
